@@ -1,5 +1,6 @@
 """C09 — group triggers deliver exactly the connected secondaries; edits act as a set."""
 import json
+import os
 import random
 import vlib
 import streamgen
@@ -67,6 +68,29 @@ def multi_rx_scenario(rng):
             "start": "fresh", "trig": [t] * nchan, "steps": steps, "data": data, "oneblock": False}
 
 
+GR = [os.path.join(vlib.HARNESS, "root", f) for f in ("common_test.go", "lifecycle_test.go", "requests_test.go", "groupreport_test.go")]
+
+
+def report_stage(ctx, q):
+    """RPC layer: requests (also ones that mix valid and out-of-range pairs) through the real SourceControl methods on a
+    running source; the latest GROUPTRIGGER update sent to clients vs the set in use (GroupReportTrace.tla)."""
+    tp = ctx.path("groupreport.ndjson")
+    rc, out = vlib.go_test(ctx, "", GR, "TestVerifGroupReport$", env={"VERIF_OUT": tp, "VERIF_NRANDOM": 25 if q else 300}, timeout=1800)
+    if rc != 0:
+        raise vlib.MachineryError("group report driver failed:\n" + out[-3000:])
+    viols, done = vlib.validate_trace(ctx, "GroupReportTrace", "GroupReportTrace.cfg", tp, timeout=900)
+    ev = vlib.read_ndjson(tp)
+    ctx.notes["rpc_group_requests"] = sum(1 for e in ev if e["ev"] == "GReq")
+    ctx.notes["rpc_group_requests_mixed"] = sum(1 for e in ev if e["ev"] == "GReq" and not e["ok"] and e["op"] != "stop")
+    for v in viols:
+        e = ev[v["line"] - 1]
+        k = v["line"] - 1
+        while ev[k]["ev"] != "GBegin":
+            k -= 1
+        vlib.report_violation(ctx, {"predicate": v["predicate"], "event": "GReq", "op": e["op"], "ok": e["ok"], "layer": "rpc"},
+                              {"history": ev[k:v["line"]]})
+
+
 def run(ctx):
     q = ctx.quick()
     r = vlib.run_tlc(ctx, "Broker", "BrokerMC.cfg", workers=16)
@@ -87,6 +111,7 @@ def run(ctx):
     ctx.notes["scenarios_multi_receiver"] = nm
     ctx.notes["scenarios_random"] = n
     events, _ = sc.validate(ctx, scens, PREFIXES)
+    report_stage(ctx, q)
     ctx.notes["connection_requests"] = sum(1 for e in events if e["ev"] == "Conn")
     ctx.notes["cycles_with_connections"] = sum(1 for e in events if e["ev"] == "Cycle")
     return vlib.finish(ctx, LEVEL, RULE,
